@@ -66,6 +66,20 @@ fn main() {
         });
         std::process::exit(code);
     }
+    if id == "bench-catalog" {
+        let t = corpus::read_utf8(&corpus::ctehexml_path(&corpus::project_dirs()[0]).unwrap());
+        let t0 = std::time::Instant::now();
+        for _ in 0..20 {
+            let _ = hulc::ctehexml::parse_with_catalog(&t);
+        }
+        let a = t0.elapsed().as_secs_f64() / 20.0;
+        let t0 = std::time::Instant::now();
+        for _ in 0..20 {
+            let _ = corpus::parse_ctehexml_text(&t);
+        }
+        println!("parse_with_catalog {:.1} ms, parse + cached catalog {:.1} ms", a * 1e3, t0.elapsed().as_secs_f64() / 20.0 * 1e3);
+        std::process::exit(0);
+    }
     if id == "replay" {
         std::process::exit(replay(&args[2]));
     }
